@@ -256,6 +256,29 @@ func (f *FS) walk(path string) *node {
 }
 
 //go:norace
+// missErr is the error for a path that does not resolve: ENOTDIR if a proper
+// prefix of it is a regular file, ENOENT otherwise.
+//
+//go:norace
+func (f *FS) missErr(path string) error {
+	path = clean(path)
+	n := f.root
+	if path == "/" {
+		return syscall.ENOENT
+	}
+	for _, part := range strings.Split(path[1:], "/") {
+		if n == nil {
+			return syscall.ENOENT
+		}
+		if !n.dir {
+			return syscall.ENOTDIR
+		}
+		n = n.children[part]
+	}
+	return syscall.ENOENT
+}
+
+//go:norace
 func (f *FS) parent(path string) (*node, string) {
 	path = clean(path)
 	dir, name := filepath.Split(path)
@@ -315,7 +338,7 @@ func Stat(name string) (FileInfo, error) {
 	t.Yield("fs stat")
 	n := f.walk(name)
 	if n == nil {
-		return nil, perr("stat", name, syscall.ENOENT)
+		return nil, perr("stat", name, f.missErr(name))
 	}
 	return fileInfo{name: filepath.Base(name), n: n, size: int64(len(n.data))}, nil
 }
@@ -346,7 +369,7 @@ func Mkdir(name string, perm FileMode) error {
 func (f *FS) mkdir(name string, perm FileMode) error {
 	p, base := f.parent(name)
 	if p == nil || !p.dir {
-		return perr("mkdir", name, syscall.ENOENT)
+		return perr("mkdir", name, f.missErr(name))
 	}
 	if _, ok := p.children[base]; ok {
 		return perr("mkdir", name, syscall.EEXIST)
@@ -379,6 +402,9 @@ func MkdirAll(path string, perm FileMode) error {
 				return perr("mkdir", curp, syscall.ENOTDIR)
 			}
 			continue
+		}
+		if f.missErr(curp) == syscall.ENOTDIR {
+			return perr("mkdir", curp, syscall.ENOTDIR)
 		}
 		if err := f.step(t, "mkdir", curp, nil); err != nil {
 			return perr("mkdir", curp, err)
@@ -414,7 +440,7 @@ func Remove(name string) error {
 func (f *FS) remove(name string) error {
 	p, base := f.parent(name)
 	if p == nil || !p.dir {
-		return perr("remove", name, syscall.ENOENT)
+		return perr("remove", name, f.missErr(name))
 	}
 	n := p.children[base]
 	if n == nil {
@@ -438,6 +464,9 @@ func RemoveAll(path string) error {
 	t.Yield("fs removeall")
 	n := f.walk(path)
 	if n == nil {
+		if err := f.missErr(path); err == syscall.ENOTDIR {
+			return perr("unlinkat", path, err)
+		}
 		return nil
 	}
 	var rec func(p string) error
@@ -507,10 +536,21 @@ func Rename(oldpath, newpath string) error {
 	if err := f.step(t, "rename", oldpath+" -> "+clean(newpath), nil); err != nil {
 		return &os.LinkError{Op: "rename", Old: oldpath, New: newpath, Err: err}
 	}
+	lerr := func(e error) error { return &os.LinkError{Op: "rename", Old: oldpath, New: newpath, Err: e} }
+	// like the kernel: both parent directories are resolved before the last components
 	op, ob := f.parent(oldpath)
+	if op == nil || !op.dir {
+		return lerr(f.missErr(oldpath))
+	}
 	np, nb := f.parent(newpath)
-	if op == nil || np == nil || !op.dir || !np.dir || op.children[ob] == nil {
-		return &os.LinkError{Op: "rename", Old: oldpath, New: newpath, Err: syscall.ENOENT}
+	if np == nil || !np.dir {
+		return lerr(f.missErr(newpath))
+	}
+	if op.children[ob] == nil {
+		return lerr(syscall.ENOENT)
+	}
+	if co, cn := clean(oldpath), clean(newpath); op.children[ob].dir && strings.HasPrefix(cn, co+"/") {
+		return lerr(syscall.EINVAL)
 	}
 	src := op.children[ob]
 	if dst := np.children[nb]; dst != nil {
@@ -580,11 +620,11 @@ func OpenFile(name string, flag int, perm FileMode) (*File, error) {
 	n := f.walk(name)
 	if n == nil {
 		if flag&O_CREATE == 0 {
-			return nil, perr("open", name, syscall.ENOENT)
+			return nil, perr("open", name, f.missErr(name))
 		}
 		p, base := f.parent(name)
 		if p == nil || !p.dir {
-			return nil, perr("open", name, syscall.ENOENT)
+			return nil, perr("open", name, f.missErr(name))
 		}
 		n = &node{mode: perm, mtime: time.Now()}
 		p.children[base] = n
@@ -915,7 +955,7 @@ func ReadFile(name string) ([]byte, error) {
 	t.Yield("fs readfile")
 	n := f.walk(name)
 	if n == nil {
-		return nil, perr("open", name, syscall.ENOENT)
+		return nil, perr("open", name, f.missErr(name))
 	}
 	if n.dir {
 		return nil, perr("read", name, syscall.EISDIR)
